@@ -32,7 +32,7 @@ RULE = (
     "{first generation, stale}. distinct = by (scenario, size, k, mode) / history; non-trivial = the fault "
     "actually fired (child died or raised) / the history contained both a due and a not-due construction."
 )
-RULE += " added since: histories run through four construction routes: Template(module_directory), Template(module_filename), TemplateLookup(module_directory), TemplateLookup(modulename_callable) without a module directory. a module file as an old code generator wrote it (magic number 5, module-level cache.Cache with the signature of that time). half of the histories render through a cached def with a backend honouring the template's start time. thread race: 4 / 8 threads constructing Templates at once for one or distinct sources."
+RULE += " added since: histories run through four construction routes: Template(module_directory), Template(module_filename), TemplateLookup(module_directory), TemplateLookup(modulename_callable) without a module directory. a module file as an old code generator wrote it (magic number 5, module-level cache.Cache with the signature of that time). half of the histories render through a cached def with a backend honouring the template's start time. thread race: 4 / 8 threads constructing Templates at once for one or distinct sources. a Template constructed although its module write raised must render the current source."
 ASSUMPTIONS = [
     "'die' is process death with the kernel intact (os._exit); power-loss ordering cannot be observed from user space",
     "the injector counts exists/stat/makedirs/mkstemp/write/close/move/rename calls that concern the module directory",
@@ -365,6 +365,12 @@ def run_crash(case, res):
             elif rc != 0:
                 res.violate("child-failed", "%s: rc=%s err=%s" % (what, rc, err), replay_case=rcase)
                 continue
+            # 0. a Template that did come to life although the write it attempted failed renders the CURRENT source
+            if mode == "raise" and out and out.get("outcome") == "ok":
+                res.count("constructed_despite_write_error")
+                if "render" in out and shown_version(out.get("render", "")) != ver:
+                    res.violate("stale-after-failed-rewrite", "%s: the I/O error was not passed on, the Template was constructed and renders %r; the current version is %d"
+                                % (what, out.get("render", "")[:40], ver), witness=what, replay_case=rcase)
             # 1. state of the module path
             if os.path.exists(mp):
                 data = open(mp, "rb").read()
